@@ -28,7 +28,8 @@ func (l *Linter) lintAclDeclaration(decl *ast.AclDeclaration, ctx *context.Conte
 		}
 
 		// Otherwise, validate as CIDR
-		c += "/" + cidr.Mask.String()
+		// Do not use String() of the mask because it includes leading/trailing comments
+		c += "/" + fmt.Sprint(cidr.Mask.Value)
 		if _, _, err := net.ParseCIDR(c); err != nil {
 			l.Error(InvalidValue(cidr.GetMeta(), "CIDR", c).Match(ACL_SYNTAX))
 		}
